@@ -390,8 +390,8 @@ theorem step_size (S : Sem V) (st st' : St V) (t n : Tok) (h : step S st t n = .
   -- the state after the optional `parseToken` on the outer stacks
   have key : ∀ st1 : St V, size st1 ≤ size st + 2 →
       ((if isFuncStart t = true then
-          if (t.val == "ARRAY") = true then Outcome.ok { st1 with inArray := true, arr := [] }
-          else if (t.val == "ARRAYROW") = true then Outcome.ok { st1 with inArrayRow := true, arrRow := [] }
+          if (t.val == "ARRAY") = true then Outcome.ok { st1 with inArray := true, arr := [], arrDepth := st1.opf.length }
+          else if (t.val == "ARRAYROW") = true then Outcome.ok { st1 with inArrayRow := true, arrRow := [], arrDepth := st1.opf.length }
           else Outcome.ok { st1 with opf := t :: st1.opf, args := [] :: st1.args, opft := t :: st1.opft }
         else match st1.opf with
           | [] =>
